@@ -241,6 +241,61 @@ func runC18(c *fw.Ctx, cs fw.Case) {
 		for i := 0; i < cs.N; i++ {
 			engineAPI(c, r, cs.Idx*1000+i)
 		}
+	case "manygames":
+		// a long-lived engine: the same analysis before and after k other games on the same engine (each a Reset
+		// and a short search), for k around the sizes at which a small game / generation counter would wrap
+		ks := []int{1, 7, 250, 253, 254, 255, 256, 257, 258, 511, 512, 513}
+		if !c.Quick() && cs.Idx%8 == 0 {
+			ks = append(ks, 65534, 65535, 65536, 65537)
+		}
+		rc := &recipes[[]int{0, 0, 3, 2}[cs.Idx%4]]
+		opts := engine.Options{Hash: 1, Depth: 1}
+		h, depth := c18Root(r, cs.Idx)
+		for try := 0; try < 20; try++ {
+			if fp := h.Final(); len(fp.LegalMoves()) > 0 {
+				break
+			}
+			h, depth = c18Root(r, cs.Idx+try+1)
+		}
+		if depth < 2 {
+			depth = 2
+		}
+		var others []gen.Hist
+		for j := 0; j < 9; j++ {
+			o, _ := c18Root(r, j+1)
+			others = append(others, o)
+		}
+		for _, k := range ks[:min(len(ks), cs.N)] {
+			e := rc.newEngine(ctx, opts, 0, nil)
+			what := fmt.Sprintf("engine %s hash 1 MB depth %d %s, %d other games in between", rc.name, depth, histDesc(h), k)
+			before, _, err := analyze(ctx, e, h, depth)
+			if err != nil {
+				break
+			}
+			for j := 0; j < k; j++ {
+				o := others[j%len(others)]
+				if e.Reset(ctx, o.Start.FEN()) != nil {
+					continue
+				}
+				if out, err := e.Analyze(ctx, searchctl.Options{DepthLimit: lang.Some(uint(1))}); err == nil {
+					for range out {
+					}
+				}
+				e.Halt(ctx)
+			}
+			after, _, err := analyze(ctx, e, h, depth)
+			if err != nil {
+				break
+			}
+			c.Eval(1)
+			c.Count("manygames_checks", 1)
+			c.Count("manygames_resets", k)
+			c.Distinct(what)
+			if d := streamDiff(before, after, true); d != "" {
+				c.Violate("determinism:many-games", "the same analysis differs after other games on the same engine: %s: %s", d, what)
+				break
+			}
+		}
 	case "repeat":
 		for i := 0; i < cs.N; i++ {
 			h, depth := c18Root(r, i+cs.Idx)
@@ -599,7 +654,7 @@ func init() {
 		Level:       "exploration",
 		RaceKinds:   map[string]bool{"concurrent": true, "engines": true, "api": true},
 		Technique:   "runtime differential monitor: the same search repeated cold / after unrelated searches / with other hash seeds / alongside 4-11 concurrently searching engines (race detector on) must give identical (score, PV, nodes); engine game snapshot before/after analysis",
-		Rule:        "direct searches: generated roots x 10 configurations, repeated after unrelated searches on the same search object and on boards with other zobrist seeds; engines: the four bundled recipes through Engine.Reset/Move/Analyze to a depth limit: PV stream (depth, score, moves, nodes per iteration) compared across repetition, hash seed, equal-seed noise, fresh tables; concurrent: probe engine alone vs. alongside other engines in the same process under the race detector; Position() and board snapshot before/after Analyze..Halt; api: random sequences of the engine's public calls (Move legal/illegal, TakeBack, Reset to another game / the same game / the live FEN, Analyze limited/unlimited, Halt, option setters, Board() forks played on by a user) with the reported FEN and the full snapshot compared with a reference game after every call (race build); distinct = distinct (configuration/engine, depth, history)",
+		Rule:        "direct searches: generated roots x 10 configurations, repeated after unrelated searches on the same search object and on boards with other zobrist seeds; engines: the four bundled recipes through Engine.Reset/Move/Analyze to a depth limit: PV stream (depth, score, moves, nodes per iteration) compared across repetition, hash seed, equal-seed noise, fresh tables; concurrent: probe engine alone vs. alongside other engines in the same process under the race detector; Position() and board snapshot before/after Analyze..Halt; manygames: the same analysis before and after k other games on one engine, k in {1, 7, 250, 253..258, 511..513} (thorough also 65534..65537); api: random sequences of the engine's public calls (Move legal/illegal, TakeBack, Reset to another game / the same game / the live FEN, Analyze limited/unlimited, Halt, option setters, Board() forks played on by a user) with the reported FEN and the full snapshot compared with a reference game after every call (race build); distinct = distinct (configuration/engine, depth, history)",
 		Assumptions: []string{"noise off and no table carried over, as the property states; with a fresh table only equal-seed engines are compared on node counts"},
 		Setup:       validateOracle,
 		Timeout:     minutes(15, 120),
@@ -609,10 +664,11 @@ func init() {
 			l = mkCases(l, "concurrent", 8, seed, pick(tier, 3, 60))
 			l = mkCases(l, "binary", 8, seed, pick(tier, 3, 60))
 			l = mkCases(l, "api", 16, seed, pick(tier, 8, 250))
+			l = mkCases(l, "manygames", 8, seed, pick(tier, 12, 16))
 			return l
 		},
 		Floors: func(string) map[string]int64 {
-			return map[string]int64{"repeat_checks": 500, "seed_checks": 1000, "engine_runs": 60, "noise_checks": 60, "concurrent_checks": 15, "binary_checks": 15, "api_sessions": 80, "api_state_checks": 2000, "api_analyses": 200, "api_move_during_analysis": 30, "api_takebacks": 50, "api_reset_to_live_fen": 15, "api_user_forks": 50}
+			return map[string]int64{"repeat_checks": 500, "seed_checks": 1000, "engine_runs": 60, "noise_checks": 60, "concurrent_checks": 15, "binary_checks": 15, "api_sessions": 80, "api_state_checks": 2000, "api_analyses": 200, "api_move_during_analysis": 30, "api_takebacks": 50, "api_reset_to_live_fen": 15, "api_user_forks": 50, "manygames_checks": 60, "manygames_resets": 20000}
 		},
 		Run: runC18,
 	})
